@@ -242,6 +242,11 @@ func check(c *core.Ctx, t *opspace.Transition) {
 	c.Distinct(t.Pre.Canon() + "|" + t.Step.String())
 	c.Outcome(op.Kind + ":" + res.ErrClass())
 	if res.Failed {
+		e := res.Err
+		if len(e) > 90 {
+			e = e[:90]
+		}
+		c.Count("failed:"+op.Kind+":"+e, 1)
 		return
 	}
 	pre, post := t.PreHist, t.PostHist
